@@ -232,6 +232,11 @@ pub fn trap_handler_family(rng: &mut Rng) -> Shape {
     let mut saved: Vec<Reg> = vec![9, 18, 19, 8];
     rng.shuffle(&mut saved);
     saved.truncate(1 + rng.below(3));
+    // real handlers also save the temporaries they use (the interrupted code goes on using them)
+    let mut temps: Vec<Reg> = TEMPS.iter().copied().filter(|t| *t != ptr).collect();
+    rng.shuffle(&mut temps);
+    temps.truncate(rng.below(3));
+    saved.extend(temps.iter().copied());
     let csr_ptr = *rng.pick(&[0x40u32, 0x40, 0x43]);
     let exits_inside = rng.chance(0.6);
     let exception_first = rng.chance(0.5);
@@ -417,6 +422,25 @@ pub fn failure_shapes(rng: &mut Rng) -> Vec<Shape> {
         p.label("spin_a");
         p.push(Ins::addi(A0, A0, 1));
         p.push(Ins::j("spin_c"));
+    }));
+    // interrupt handlers (entries that no call names) that never return
+    v.push(mk("interrupt-handler-infinite-loop", &|p| {
+        p.push(Ins::La { rd: 5, label: "handler".into() });
+        p.push(Ins::Csrrw { rd: ZERO, csr: 5, rs1: 5 });
+        exit(p);
+        p.label("handler");
+        p.push(Ins::addi(A0, A0, 1));
+        p.push(Ins::j("handler"));
+    }));
+    v.push(mk("interrupt-handler-exits", &|p| {
+        p.push(Ins::La { rd: 6, label: "on_trap".into() });
+        p.push(Ins::Csrrw { rd: ZERO, csr: 5, rs1: 6 });
+        exit(p);
+        p.label("on_trap");
+        p.label("on_trap_alias");
+        p.push(Ins::Csrrs { rd: A0, csr: 0x42, rs1: ZERO });
+        p.push(Ins::li(A7, 93));
+        p.push(Ins::Ecall);
     }));
     v.push(mk("function-exits-inside", &|p| {
         p.push(Ins::call("bye"));
